@@ -574,7 +574,7 @@ func c15Gen(r *verifh.Rng) []verifh.Section {
 	// consecutive seeds of verifh.NewRng are one draw apart on the same stream: fork for independent streams
 	r = r.Fork()
 	secs := c15Fixed()
-	nsec := verifh.Scale(80, 1500)
+	nsec := verifh.Scale(80, 800)
 	for i := 0; i < nsec; i++ {
 		cfg := c15Cfg(r)
 		cfg += " probes=" + strings.Join(c15Probes(r, verifh.Scale(64, 96)), ",")
